@@ -1876,3 +1876,12 @@ Proof.
   split; [repeat constructor; vm_compute; lia|].
   eexists. eexists. vm_compute. reflexivity.
 Qed.
+
+(* double_buffer_sizes[0] bounds the even slices only: a consumer that puts every slice into ONE buffer of that size
+   (scheduler.propose_weight_buffering with TensorSubPurpose.Standard; buffer index = slice index mod 1) is not covered *)
+Definition uneven_enc (c d l b : Z) : list Z := repeat 0 (if d =? 16 then 64%nat else 16%nat).
+Lemma single_buffer_refuted_lemma :
+  exists t, encode_layout uneven_enc 1 48 16 true (repeat 0 48) (repeat (1, 0) 48) [0; 16; 32; 48] = Some t /\
+            strictly_increasing [0; 16; 32; 48] /\
+            db_get (t_db t) 0 < group_size (t_ranges t) 16 /\ group_size (t_ranges t) 16 <= db_get (t_db t) 1.
+Proof. eexists. split; [vm_compute; reflexivity|]. vm_compute. repeat split; discriminate. Qed.
